@@ -4,16 +4,32 @@ import CfrVerif.Model.Tree
 
 `expected` and `next_infoset_search` use an explicit stack in the crate; here
 they are structural recursions computing the same sums (in a different
-association order, which matters only for rounding).  `optimal_deviations`
-resolves infosets leaves-first with a work-list driven by `future_nodes`
-counters; because `prev(I) < I` in insertion order, resolving in *decreasing
-index order* is one of the orders the work-list can take, and each infoset's
-value depends only on already resolved ones — so the values coincide.
+association order, which matters only for rounding).
+
+`optimal_deviations::<PLAYER>` looks at the game from one player's side: the
+opponent's decision nodes and the chance nodes are both "the rest of the world
+moves with known probabilities" (`search_queue.push((next, prob * reach))`), with
+the one difference that zero-probability opponent actions are not followed.  The
+model makes that view explicit (`V`, `view`) and runs the algorithm on it:
+collect the reached own nodes per infoset, resolve the infosets leaves-first
+(the crate uses a work-list driven by `future_nodes` counters; because
+`prev(I) < I` in insertion order, resolving in *decreasing index order* is one of
+the orders the work-list can take, and each infoset's value depends only on
+already resolved ones, so the values coincide), then evaluate the root.
 -/
 namespace Cfr
 
 /-- a behavioural strategy of one player: one probability vector per multi-action infoset -/
 abbrev Strat (α : Type) := List (List α)
+
+/-- the game as one player sees it: terminals (in that player's own utility), moves of the
+rest of the world (chance and the opponent's fixed strategy) with their probabilities, own
+decisions -/
+inductive V (α : Type) where
+  | term (u : α)
+  | nature (ws : List α) (kids : List (V α))
+  | decide (info : Nat) (kids : List (V α))
+  deriving Inhabited
 
 section
 variable {α : Type} [Zero α] [One α] [Add α] [Sub α] [Mul α] [Div α] [Neg α]
@@ -33,42 +49,47 @@ def expectedL (ch : List (List α)) (σ : Bool → Strat α) (skip : Bool) : Lis
   | _, _ => 0
 end
 
-/-- a reached own node: its infoset, its children, the opponent×chance reach -/
+mutual
+/-- the game seen by player `me` when the opponent plays `σo` -/
+def view (ch : List (List α)) (σo : Strat α) (me : Bool) : Node α → V α
+  | .term p => .term (if me then p else -p)
+  | .chance i ks => .nature (ch.getD i []) (viewL ch σo me ks)
+  | .player one i ks =>
+    if one == me then .decide i (viewL ch σo me ks) else .nature (σo.at i) (viewL ch σo me ks)
+def viewL (ch : List (List α)) (σo : Strat α) (me : Bool) : List (Node α) → List (V α)
+  | [] => []
+  | k :: ks => view ch σo me k :: viewL ch σo me ks
+end
+
+/-- a reached own node: its infoset, its children, the reach of the rest of the world -/
 structure Reached (α : Type) where
   info : Nat
-  kids : List (Node α)
+  kids : List (V α)
   reach : α
 
 mutual
-/-- first loop of `optimal_deviations`: own nodes reached with positive opponent probability -/
-def collect (ch : List (List α)) (σo : Strat α) (me : Bool) : Node α → α → List (Reached α)
+/-- first loop of `optimal_deviations`: own nodes reached with positive probability -/
+def collect : V α → α → List (Reached α)
   | .term _, _ => []
-  | .chance i ks, r => collectL ch σo me false (ch.getD i []) ks r
-  | .player one i ks, r =>
-    if one == me then ⟨i, ks, r⟩ :: collectOwn ch σo me ks r
-    else collectL ch σo me true (σo.at i) ks r
-def collectL (ch : List (List α)) (σo : Strat α) (me : Bool) (skip : Bool) :
-    List α → List (Node α) → α → List (Reached α)
-  | p :: ps, k :: ks, r =>
-    (if skip && !(0 < p) then [] else collect ch σo me k (p * r)) ++ collectL ch σo me skip ps ks r
+  | .nature ws ks, r => collectN ws ks r
+  | .decide i ks, r => ⟨i, ks, r⟩ :: collectD ks r
+def collectN : List α → List (V α) → α → List (Reached α)
+  | w :: ws, k :: ks, r => (if 0 < w then collect k (w * r) else []) ++ collectN ws ks r
   | _, _, _ => []
-def collectOwn (ch : List (List α)) (σo : Strat α) (me : Bool) : List (Node α) → α → List (Reached α)
+def collectD : List (V α) → α → List (Reached α)
   | [], _ => []
-  | k :: ks, r => collect ch σo me k r ++ collectOwn ch σo me ks r
+  | k :: ks, r => collect k r ++ collectD ks r
 end
 
 mutual
 /-- `next_infoset_search` : value of a continuation up to the player's next infosets,
 whose values are looked up in `mu` -/
-def search (ch : List (List α)) (σo : Strat α) (me : Bool) (mu : List α) : Node α → α
-  | .term p => if me then p else -p
-  | .chance i ks => searchL ch σo me mu false (ch.getD i []) ks
-  | .player one i ks =>
-    if one == me then mu.getD i 0 else searchL ch σo me mu true (σo.at i) ks
-def searchL (ch : List (List α)) (σo : Strat α) (me : Bool) (mu : List α) (skip : Bool) :
-    List α → List (Node α) → α
-  | p :: ps, k :: ks =>
-    (if skip && !(0 < p) then 0 else p * search ch σo me mu k) + searchL ch σo me mu skip ps ks
+def search (mu : List α) : V α → α
+  | .term u => u
+  | .nature ws ks => searchN mu ws ks
+  | .decide i _ => mu.getD i 0
+def searchN (mu : List α) : List α → List (V α) → α
+  | w :: ws, k :: ks => (if 0 < w then w * search mu k else 0) + searchN mu ws ks
   | _, _ => 0
 end
 
@@ -78,37 +99,40 @@ def maxList : List α → Option α
   | x :: xs => some (xs.foldl fmax x)
 
 /-- pointwise `payoffs[a] += search(child a) * reach` for one reached node -/
-def addPayoffs (ch : List (List α)) (σo : Strat α) (me : Bool) (mu : List α) (r : α) :
-    List α → List (Node α) → List α
-  | acc :: accs, k :: ks => (acc + search ch σo me mu k * r) :: addPayoffs ch σo me mu r accs ks
+def addPayoffs (mu : List α) (r : α) : List α → List (V α) → List α
+  | acc :: accs, k :: ks => (acc + search mu k * r) :: addPayoffs mu r accs ks
   | accs, _ => accs
 
-/-- resolve infoset `I`: per-action counterfactual value over its reached nodes,
-maximum, divided by the total reach -/
-def resolveOne (ch : List (List α)) (σo : Strat α) (me : Bool) (nodes : List (Reached α))
-    (nActs : Nat) (I : Nat) (mu : List α) : List α :=
+/-- per-action counterfactual value of infoset `I` over its reached nodes -/
+def infoPayoffs (nodes : List (Reached α)) (nActs : Nat) (I : Nat) (mu : List α) : List α :=
+  (nodes.filter (·.info == I)).foldl (fun acc n => addPayoffs mu n.reach acc n.kids)
+    (List.replicate nActs 0)
+
+/-- resolve infoset `I`: maximum of its per-action values, divided by the total reach -/
+def resolveOne (nodes : List (Reached α)) (nActs : Nat) (I : Nat) (mu : List α) : List α :=
   let mine := nodes.filter (·.info == I)
   if mine.isEmpty then mu else
   let total := lsum (mine.map (·.reach))
-  let payoffs := mine.foldl (fun acc n => addPayoffs ch σo me mu n.reach acc n.kids)
-    (List.replicate nActs 0)
-  match maxList payoffs with
+  match maxList (infoPayoffs nodes nActs I mu) with
   | some m => mu.set I (m / total)
   | none => mu
 
 /-- resolve infosets `n-1, n-2, …, 0` -/
-def resolveAll (ch : List (List α)) (σo : Strat α) (me : Bool) (nodes : List (Reached α))
-    (nActs : Nat → Nat) : Nat → List α → List α
+def resolveAll (nodes : List (Reached α)) (nActs : Nat → Nat) : Nat → List α → List α
   | 0, mu => mu
-  | n + 1, mu => resolveAll ch σo me nodes nActs n (resolveOne ch σo me nodes (nActs n) n mu)
+  | n + 1, mu => resolveAll nodes nActs n (resolveOne nodes (nActs n) n mu)
+
+/-- the best-response value on a view: `N` infosets with `nActs i` actions each -/
+def bestResponse (N : Nat) (nActs : Nat → Nat) (v : V α) : α :=
+  let nodes := collect v 1
+  let mu := resolveAll nodes nActs N (List.replicate N 0)
+  search mu v
 
 /-- `optimal_deviations::<me>` : value of `me`'s best response against `σo` -/
 def optimalDeviations (g : Game α) (me : Bool) (σo : Strat α) : α :=
   let infos := g.infos me
-  let nodes := collect g.chance σo me g.root 1
-  let mu := resolveAll g.chance σo me nodes (fun i => (infos.getD i default).actions.length)
-    infos.length (List.replicate infos.length 0)
-  search g.chance σo me mu g.root
+  bestResponse infos.length (fun i => (infos.getD i default).actions.length)
+    (view g.chance σo me g.root)
 
 structure StrategiesInfo (α : Type) where
   util : α
